@@ -1679,10 +1679,15 @@ func (c *Conn) executeBatch(ctx context.Context, batch *Batch) *Iter {
 		return &Iter{framer: framer}
 	case *RequestErrUnprepared:
 		stmt, found := stmts[string(x.StatementId)]
-		if found {
-			key := c.session.stmtsLRU.keyFor(c.host.HostID(), c.currentKeyspace, stmt)
-			c.session.stmtsLRU.evictPreparedID(key, x.StatementId)
+		if !found {
+			// the id is not one this batch sent (none of its statements was
+			// prepared, or the server names another id): there is nothing to
+			// prepare again, executing the batch again would loop for as long
+			// as the server keeps answering this way
+			return &Iter{err: x, framer: framer}
 		}
+		key := c.session.stmtsLRU.keyFor(c.host.HostID(), c.currentKeyspace, stmt)
+		c.session.stmtsLRU.evictPreparedID(key, x.StatementId)
 		return c.executeBatch(ctx, batch)
 	case *resultRowsFrame:
 		iter := &Iter{
